@@ -11,7 +11,7 @@ Writes /verif/seeded/MATRIX.json: seed -> {check: 'VIOLATION' | 'silent' | 'erro
 import json, os, re, subprocess, sys, shutil
 VERIF = os.path.dirname(os.path.dirname(os.path.dirname(os.path.abspath(__file__))))
 SEEDED = os.path.join(VERIF, 'seeded')
-SCR = '/tmp/sv/matrix'
+SCR = os.environ.get('MATRIX_SCR', '/tmp/sv/matrix')
 
 def sh(cmd, **kw):
     return subprocess.run(cmd, shell=True, stdout=subprocess.PIPE, stderr=subprocess.STDOUT, text=True, **kw)
@@ -19,7 +19,7 @@ def sh(cmd, **kw):
 def main():
     seeds = sys.argv[1:] or sorted(d for d in os.listdir(SEEDED) if os.path.isdir(os.path.join(SEEDED, d)))
     os.makedirs(SCR, exist_ok=True)
-    mpath = os.path.join(SEEDED, 'MATRIX.json')
+    mpath = os.environ.get('MATRIX_OUT') or os.path.join(SEEDED, 'MATRIX.json')
     matrix = json.load(open(mpath)) if os.path.exists(mpath) else {}
     for s in seeds:
         d = os.path.join(SEEDED, s)
